@@ -581,7 +581,9 @@ class C08(E2ECheck):
             '(some raising in on_done, some supplying the size) x every '
             'outcome (faults, cancels racing the submission task) x '
             'schedule; oracle on callback steps vs the fake-S3 call log; '
-            'non-trivial = an outcome other than plain success')
+            'non-trivial = an outcome other than plain success; the '
+            'coordinator-level two-thread scenarios (class coord-line-preempt,'
+            ' one forced line preemption each) all count as non-trivial')
 
     def classify(self, R):
         cls = base_classes(R)
